@@ -96,6 +96,7 @@ func genC03(seed uint64, idx int) *Plan {
 	} else if r.IntN(10) == 0 {
 		p.OuterSIDEmpty = true
 	}
+	p.DupOuter = idx%7 == 0
 	if idx%5 == 0 {
 		// a legacy_version of the client's own choosing in the inner hello
 		p.LegacyVer = []uint16{0x0301, 0x0302, 0x0304, 0x0300}[(idx/5)%4]
@@ -340,6 +341,10 @@ func genC05(seed uint64, idx int) *Plan {
 	if (p.NoECH || p.Grease) && r.IntN(3) == 0 {
 		p.Keys = nil
 	}
+	if (p.NoECH || p.Grease) && idx%7 == 3 {
+		// the largest plaintext records
+		p.FragmentLen = []int{16384, 16383, 16381, 16380, 16379, 16000}[(idx/7)%6]
+	}
 	if p.NoECH && p.NoVersions && idx%3 == 0 {
 		// an old client: no extensions (an empty block, or none at all)
 		p.ExtBlock = []string{"none", "empty"}[(idx/3)%2]
@@ -347,7 +352,7 @@ func genC05(seed uint64, idx int) *Plan {
 	return &Plan{Kind: "script", Seed: seed, Script: p}
 }
 
-var c02Subs = []string{"ech-trailing", "wrong-key", "wrong-info", "wrong-id-ext", "wrong-suite-ext", "trunc-enc", "trunc-payload", "aad-not-zeroed", "unlisted-suite", "canonical-info", "outer-zeros", "bad-enc"}
+var c02Subs = []string{"ech-trailing", "wrong-key", "wrong-info", "wrong-id-ext", "wrong-suite-ext", "trunc-enc", "trunc-payload", "aad-not-zeroed", "unlisted-suite", "canonical-info", "outer-zeros", "bad-enc", "info-concat"}
 
 func genC02(seed uint64, idx int, tier string) *Plan {
 	r := core.NewRand(seed, "plan")
@@ -384,6 +389,13 @@ func genC02(seed uint64, idx int, tier string) *Plan {
 				p.Target = p.Keys[i]
 			}
 		}
+	case "info-concat":
+		// another key with the same config id (and every suite) in front of the target
+		o := p.Target
+		o.KeySeed += 7919
+		o.Suites = append([]echbox.Suite(nil), echbox.AllSuites...)
+		o.OwnEncoder = !o.OwnEncoder
+		p.Keys = []KeySpec{o, p.Target}
 	case "canonical-info":
 		for i := range p.Keys {
 			if p.Keys[i].KeySeed == p.Target.KeySeed {
@@ -393,6 +405,26 @@ func genC02(seed uint64, idx int, tier string) *Plan {
 					p.Keys[i].ExtraExt = true
 				}
 				p.Target = p.Keys[i]
+			}
+		}
+	}
+	if idx%2 == 1 {
+		switch kind {
+		case "unlisted-suite", "wrong-suite-ext":
+			// the same key pair was served earlier under a config listing every suite
+			pr := p.Target
+			pr.Suites = append([]echbox.Suite(nil), echbox.AllSuites...)
+			p.Prime = &pr
+		case "wrong-id-ext":
+			// ... or under the config id the hello names
+			pr := p.Target
+			pr.ID = p.Target.ID + byte(1+p.Mutations[0].A%255)
+			p.Prime = &pr
+		case "wrong-info", "wrong-key":
+			pr := p.Target
+			pr.PublicName = "old." + pr.PublicName
+			if len(pr.PublicName) <= 250 {
+				p.Prime = &pr
 			}
 		}
 	}
